@@ -104,8 +104,8 @@ def fixture():
                                            axial_extra={'lower': ['hydraulic_diameter = 0.004', 'epsilon = 0.00001']}),
                 'ctrl': geninp.default_asm(2, subsections=pm)}
         inp = geninp.write_case(
-            d, asms, [('fuel', 1, 1, 'FLOWRATE=0.5'), ('ctrl', 2, 2, 'OUTLET_TEMP=773.15'), ('fuel', 2, 4, 'DELTA_TEMP=120.0'),
-                      ('fuel', 2, 6, 'FLOWRATE=0.4')],
+            d, asms, [('fuel', 1, 1, 'FLOWRATE=0.5'), ('ctrl', 2, 2, 'OUTLET_TEMP=773.15'), ('fuel', 2, (4, 5), 'DELTA_TEMP=120.0'),
+                      ('fuel', 3, (2, 3), 'FLOWRATE=0.4'), ('ctrl', 3, (6, 7), 'OUTLET_TEMP=780.0')],
             setup_lines=['axial_mesh_size = 0.005', 'axial_plane = 0.13, 0.27', 'conv_approx = True',
                          'conv_approx_dz_cutoff = 0.001', '[[Dump]]', '    coolant = True', '    interval = 0.05',
                          '[[AssemblyTables]]', '    [[[t1]]]', '        type = duct_mw', '        assemblies = 1',
@@ -122,11 +122,25 @@ def fixture():
     return copy.deepcopy(_FIX['data'])
 
 
-def _plain(x):
+def _plain(x, memo=None):
+    """Plain-python copy that keeps aliasing: a dictionary or list that occurs twice in the reader's data occurs twice (as
+    one object) in the copy, so that an in-place conversion applied once per alias is seen."""
+    memo = {} if memo is None else memo
+    if isinstance(x, (dict, list)) and id(x) in memo:
+        return memo[id(x)]
     if isinstance(x, dict):
-        return {k: _plain(v) for k, v in x.items()}
-    if isinstance(x, (list, tuple)):
-        return [_plain(v) for v in x]
+        out = {}
+        memo[id(x)] = out
+        for k, v in x.items():
+            out[k] = _plain(v, memo)
+        return out
+    if isinstance(x, list):
+        out = []
+        memo[id(x)] = out
+        out.extend(_plain(v, memo) for v in x)
+        return out
+    if isinstance(x, tuple):
+        return [_plain(v, memo) for v in x]
     if isinstance(x, (np.floating,)):
         return float(x)
     if isinstance(x, (np.integer,)):
@@ -166,12 +180,25 @@ def klass(path):
     return 'none'
 
 
-def symbolise(env, node, path, leaves):
-    """Replace every float leaf by an input variable; returns the new node."""
+def symbolise(env, node, path, leaves, memo=None):
+    """Replace every float leaf by an input variable; returns the new node.  Aliasing is preserved: a dictionary or list
+    that the reader put into the data twice stays one object (its leaves get one variable each), so that an in-place
+    conversion applied once per alias shows up as a leaf converted twice."""
+    memo = {} if memo is None else memo
+    if isinstance(node, (dict, list)) and id(node) in memo:
+        return memo[id(node)]
     if isinstance(node, dict):
-        return {k: symbolise(env, v, path + (k,), leaves) for k, v in node.items()}
+        out = {}
+        memo[id(node)] = out
+        for k, v in node.items():
+            out[k] = symbolise(env, v, path + (k,), leaves, memo)
+        return out
     if isinstance(node, list):
-        return [symbolise(env, v, path + (i,), leaves) for i, v in enumerate(node)]
+        out = []
+        memo[id(node)] = out
+        for i, v in enumerate(node):
+            out.append(symbolise(env, v, path + (i,), leaves, memo))
+        return out
     if isinstance(node, float):
         name = 'leaf_' + re.sub(r'[^A-Za-z0-9]+', '_', '/'.join(map(str, path)))
         v = env.real(name, lo=-1e6, hi=1e6)
@@ -393,7 +420,7 @@ def main():
                      'otherwise, against an independent key classification.  Round trips of all scalar converters are '
                      'identities over the reals; every unit spelling check_units accepts must be converted without exception.'),
         bounds={'unit combinations': 'all 90 (5 length x 3 temperature x 2 mass x 3 time)', 'unit spellings': 'every spelling in the utils tables (thorough adds the "per" forms)',
-                'fixture': '2 assembly types (FuelModel + SpacerGrid + 2 axial regions; PinModel), 4 assignments on a 7-position map with '
+                'fixture': '2 assembly types (FuelModel + SpacerGrid + 2 axial regions; PinModel), 5 assignment lines (three of them spanning two positions) on a 19-position map with '
                            'empty positions between them (flowrate, outlet_temp, delta_temp, flowrate), Orificing, AssemblyTables, Dump'},
         outside=['effect on Reactor.z / temperatures (follows from identical SI data)', 'table.py output conversion',
                  'string parsing by ConfigObj'],
